@@ -136,6 +136,16 @@ CHECKS = {
              'gc object counts flat; (3) 2..16 threads on one dispatcher with GIL yields injected at statement starts of '
              'dispatcher.py / validators, every response compared with the model answer and searched for foreign tokens.',
         note='trusted: vmon/models/server.py; held on the interleavings observed (counted in the evidence), not on all'),
+    'C14': dict(
+        category='exploration', design_ref='DESIGN.md §3 C14',
+        technique='runtime monitor: generated validated methods vs hand-written schema evaluator / annotation table',
+        text='Methods of 1..3 parameters with JSON-schema fragments (JsonSchemaValidator) or annotations incl. models, enums and a '
+             'model whose field validator raises (PydanticValidator, coercion on/off), with context and excluded parameters, as '
+             'function / coroutine / view method, are registered on the real dispatchers and called with conforming, coercible '
+             'and non-conforming values positionally and by name; executed-iff-conforming, -32602 with encodable data, run-never-'
+             'on-refusal, unchanged / converted arguments and non-settable excluded parameters are judged against an evaluator '
+             'written for exactly that alphabet. One function object is also registered without a context on purpose.',
+        note='trusted: frag_ok / schema_ok and the ANNOT table in vmon/monitors/c14.py (checked against pydantic 2.13 lax mode)'),
 }
 
 NOT_BUILT_REASON = 'no check registered yet in this round (monitor under construction, see DESIGN.md §3)'
